@@ -138,6 +138,43 @@ func c07RunOp(p *plenc.Plenc, cfg model.Cfg, op *c07Op, pkgLevel bool) string {
 	return ""
 }
 
+// hasNaNKey reports whether v holds a map with a NaN key somewhere
+func hasNaNKey(v reflect.Value, depth int) bool {
+	if depth > 12 {
+		return false
+	}
+	switch v.Kind() {
+	case reflect.Ptr, reflect.Interface:
+		return !v.IsNil() && hasNaNKey(v.Elem(), depth+1)
+	case reflect.Struct:
+		if v.Type() == model.TimeT {
+			return false
+		}
+		for i := 0; i < v.NumField(); i++ {
+			if hasNaNKey(v.Field(i), depth+1) {
+				return true
+			}
+		}
+	case reflect.Slice:
+		for i := 0; i < v.Len(); i++ {
+			if hasNaNKey(v.Index(i), depth+1) {
+				return true
+			}
+		}
+	case reflect.Map:
+		it := v.MapRange()
+		for it.Next() {
+			if k := it.Key(); (k.Kind() == reflect.Float64 || k.Kind() == reflect.Float32) && k.Float() != k.Float() {
+				return true
+			}
+			if hasNaNKey(it.Key(), depth+1) || hasNaNKey(it.Value(), depth+1) {
+				return true
+			}
+		}
+	}
+	return false
+}
+
 // c07Prepare builds the operations of a trial and their expected results on a
 // reference instance whose codecs are built sequentially
 func c07Prepare(r *rand.Rand, cfg model.Cfg, fam c07Family, nworkers, nops int) [][]*c07Op {
@@ -161,8 +198,18 @@ func c07Prepare(r *rand.Rand, cfg model.Cfg, fam c07Family, nworkers, nops int) 
 				op.value, op.wantBytes, op.wantErr = v, data, err != nil
 				if op.kind == 1 {
 					op.data = data
+					if len(data) > 1 && r.IntN(5) == 0 {
+						// a damaged message among the good ones: rejected (or not) exactly as when it comes alone,
+						// and without consequences for the calls around it
+						op.data = damage(r, data)
+					}
 					tv := reflect.New(t)
-					err := ref.Unmarshal(data, tv.Interface())
+					err := ref.Unmarshal(op.data, tv.Interface())
+					if hasNaNKey(tv.Elem(), 0) {
+						// (damage can turn a float key into NaN, which no comparison can look up again)
+						op.data, tv = data, reflect.New(t)
+						err = ref.Unmarshal(op.data, tv.Interface())
+					}
 					op.wantValue, op.wantErr = tv.Elem(), err != nil
 				}
 			case 2:
@@ -322,8 +369,15 @@ func c07Steady(c *core.Ctx, idx int) {
 			op.value, op.wantBytes, op.wantErr = v, data, err != nil
 			if op.kind == 1 {
 				op.data = data
+				if len(data) > 1 && r.IntN(6) == 0 {
+					op.data = damage(r, data)
+				}
 				tv := reflect.New(t)
-				err := ref.Unmarshal(data, tv.Interface())
+				err := ref.Unmarshal(op.data, tv.Interface())
+				if hasNaNKey(tv.Elem(), 0) {
+					op.data, tv = data, reflect.New(t)
+					err = ref.Unmarshal(op.data, tv.Interface())
+				}
 				op.wantValue, op.wantErr = tv.Elem(), err != nil
 			}
 			ops[w] = append(ops[w], op)
